@@ -201,6 +201,15 @@ def c14(run, replay=None):
     o = run_transfer(root, 1, ["/nonexistent/prog", "x"], None, False, 0, [])
     if o["rc"] in (0, "timeout") or o["log"] != ["pre0"]:
         run.violation("transfer_pid with a missing executable: rc=%r log=%r" % (o["rc"], o["log"]), dict(observed=o))
+    # a RELATIVE chdir is applied exactly once (relative to where rash was started)
+    for rel, sub in (("..", ".."), ("wd sub", "wd sub"), ("./wd sub/../wd sub", "wd sub"), (".", ".")):
+        rr = os.path.join(C.SANDBOX, "xrel", "start")
+        o = run_transfer(rr, 0, [C.VH, "execdump", "x"], rel, False, 7, [])
+        want = os.path.realpath(os.path.join(rr, sub))
+        d = o["dump"]
+        if d is None or os.path.realpath(d["cwd"]) != want or o["rc"] != 7:
+            run.violation("transfer_pid with the relative chdir %r: expected the command to run in %s with exit 7, got cwd=%r rc=%r" % (rel, want, None if d is None else d["cwd"], o["rc"]),
+                          dict(chdir=rel, observed={k: v for k, v in o.items() if k != "env_given"}))
     # a RELATIVE program with a directory part and `chdir`: the directory is changed first, the program is looked up
     # from there - even when a file of the same relative name exists where rash was started
     rroot = os.path.join(C.SANDBOX, "xr")
@@ -343,6 +352,16 @@ def c15(run, replay=None):
         if o["rc"] != 0 or o["stdout"] != want:
             run.violation("become_user %s: expected uid/gid %d/%d inside and %d/%d afterwards, got stdout %r (rc %r)" % (bu, uid, gid, os.getuid(), os.getgid(), o["stdout"], o["rc"]),
                           dict(script=sc, observed=o))
+    # a become task that overwrites variables with values that are EQUAL IN JINJA'S LOOSE SENSE but not the same
+    # (1 -> 1.0, 2.0 -> 2, 1 -> true, 0 -> false, flat and nested): the writes must arrive like without become
+    wr = ("- set_vars:\n    count: 1\n    ratio: 2.0\n    flag: 1\n    off: 0\n    ports: [1, 2]\n    conf: {retries: 1}\n"
+          "- set_vars:\n    count: 1.0\n    ratio: 2\n    flag: true\n    off: false\n    ports: [1.0, 2]\n    conf: {retries: true}\n%s"
+          "- debug:\n    msg: \"<<w>> {{ count | tojson }} {{ ratio | tojson }} {{ flag | tojson }} {{ off | tojson }} {{ ports | tojson }} {{ conf | tojson }}\"\n")
+    plain_o = E.run_impls([dict(files={"main.rh": dict(raw="#!/usr/bin/env rash\n" + wr % "")}, world_writable=True)], timeout=15)[0]
+    bec_o = E.run_impls([dict(files={"main.rh": dict(raw="#!/usr/bin/env rash\n" + wr % "  become: true\n  become_user: nobody\n")}, world_writable=True)], timeout=15)[0]
+    if plain_o["rc"] != 0 or (plain_o["rc"], plain_o["stdout"]) != (bec_o["rc"], bec_o["stdout"]):
+        run.violation("become changes the result of loosely-equal overwrites: without become %r, with become %r" % (plain_o["stdout"][-160:], bec_o["stdout"][-160:]),
+                      dict(script=wr, without_become=plain_o, with_become=bec_o))
     # K38: a non-finite number in the store does not survive the JSON trip of a become task
     sc = ("#!/usr/bin/env rash\n- set_vars:\n    x: .inf\n    y: 1.5\n- debug:\n    msg: \"before {{ x }} {{ y }}\"\n- command: \"true\"\n  become: true\n  become_user: nobody\n"
           "- debug:\n    msg: \"after {{ x }} {{ y }}\"\n")
